@@ -79,6 +79,19 @@ template <class T> void normalize_prior(const T&, T&) {}
 inline void normalize_prior(const Derived& value, Derived& prior) { if (!value.hasExtra) prior.extra = 0; }
 inline void normalize_prior(const std::shared_ptr<Derived>& value, std::shared_ptr<Derived>& prior) { if (value && prior && !value->hasExtra) prior->extra = 0; }
 
+// history: state must not leak from an earlier (failing or succeeding) operation of the same thread into the next one
+template <class Arch> void history(vf::Ctx& c) {
+	if (!c.src.chance(1, 4)) return;
+	c.label("after-another-operation");
+	switch (c.src.draw(5)) {
+	case 0: { std::vector<int> t; (void)capture([&] { LoadObject<Arch>(t, std::string("\x01garbage{[<,\"\xff")); }); break; }                       // failing load from memory
+	case 1: { std::vector<int> t; (void)capture([&] { std::istringstream is(std::string("\xc1\xff{{<a", 7)); LoadObject<Arch>(t, is); }); break; }   // failing load from a stream
+	case 2: { std::vector<double> v{ 1.5, std::nan(""), 2.5 }; std::string out; (void)capture([&] { SaveObject<Arch>(v, out); }); break; }              // JSON: fails (NaN); others: succeeds
+	case 3: { std::vector<int> v{ 1, 2, 3 }; std::ostringstream os; os.setstate(std::ios::badbit); (void)capture([&] { SaveObject<Arch>(v, os); }); break; }   // output stream already failed
+	default: { std::vector<std::string> v{ "previous", "document", std::string(300, 'p') }, w; std::string out; (void)capture([&] { SaveObject<Arch>(v, out); LoadObject<Arch>(w, out); }); }
+	}
+}
+
 template <class T> void run_type(vf::Ctx& c, const char* tname, bool withPrior) {
 	if constexpr (ARCH == XML && is_non_name_key_map<T>::value) { c.label("excluded:KF-44-xml-non-name-keys"); c.discard("KF-44"); }
 	GenCtx g = GenCtx::forArch(ARCH);
@@ -94,6 +107,7 @@ template <class T> void run_type(vf::Ctx& c, const char* tname, bool withPrior) 
 	c.label(vf::cat("type=", tname)); if (cfg.stream) c.label(vf::cat("enc=", static_cast<int>(cfg.opt.streamOptions.encoding), cfg.opt.streamOptions.writeBom ? "+bom" : ""));
 	std::optional<T> prior; if (withPrior) { GenCtx gp = g; gp.noEmptyContainers = false; gp.noNulls = false; prior.emplace(gen<T>(c.src, gp)); normalize_prior(value, *prior); }
 	c.describe(vf::cat(arch_name(ARCH), " ", tname, " ", mdl::show(value), asRoot ? " root " : " member ", cfg.str(), withPrior ? " prior=" + mdl::show(*prior) : ""));
+	history<A>(c);
 	std::string d; const char* e = nullptr;
 	if constexpr (root_capable<T>()) { e = asRoot ? roundtrip<T, true>(c, value, prior ? &*prior : nullptr, cfg, d) : roundtrip<T, false>(c, value, prior ? &*prior : nullptr, cfg, d); }
 	else e = roundtrip<T, false>(c, value, prior ? &*prior : nullptr, cfg, d);
@@ -129,6 +143,14 @@ std::string row_diff(const Row& a, const Row& b) {
 VF_PROPERTY(roundtrip_csv, 5, "vector of flat rows (bool, integers, double, float, 3 string widths with any Unicode incl. separators, quotes, CR, LF, enum, time point, duration, optionals) x 5 separators x memory/stream x 5 encodings x BOM: equal rows after loading into a fresh vector and into a populated one; non-trivial = some cell needs quoting or is non-ASCII, and the configuration is not the default")
 {
 	GenCtx g = GenCtx::forArch(CSV); Cfg cfg = gen_cfg(c.src, CSV); g.noNulChar = cfg.stream && !cfg.opt.streamOptions.writeBom;
+	if (c.src.chance(1, 4)) {   // history: an earlier failing or succeeding operation of the same thread must leave nothing behind
+		c.label("after-another-operation");
+		switch (c.src.draw(3)) {
+		case 0: { std::vector<Row> t; (void)capture([&] { LoadObject<CsvArchive>(t, std::string("b,i8\r\n\"unterminated,1\r\nx")); }); break; }
+		case 1: { std::vector<Row> t; (void)capture([&] { std::istringstream is("a,b\n1\n2,3,4\n"); LoadObject<CsvArchive>(t, is); }); break; }
+		default: { std::vector<Row> v(2), w; v[0].s = std::string(300, 'p'); std::string out; (void)capture([&] { SaveObject<CsvArchive>(v, out); LoadObject<CsvArchive>(w, out); }); }
+		}
+	}
 	size_t n = 1 + c.src.len(5); std::vector<Row> rows(n); bool special = false;
 	for (auto& r : rows) { r.b = c.src.coin(); r.i8 = c.src.integer<int8_t>(); r.u64 = c.src.integer<uint64_t>(); r.i64 = c.src.integer<int64_t>(); r.d = gen<double>(c.src, g); r.f = gen<float>(c.src, g); r.s = gen<std::string>(c.src, g); r.s16 = gen<std::u16string>(c.src, g); r.ws = gen<std::wstring>(c.src, g);
 		r.col = gen<Color>(c.src, g); r.tp = gen<TpMs>(c.src, g); r.dur = gen<ch::seconds>(c.src, g); r.oi = gen<std::optional<int>>(c.src, g); r.os = gen<std::optional<std::string>>(c.src, g);
